@@ -29,7 +29,7 @@ PROPERTY = "C47"
 LEVEL = "exploration"
 ENGINE = "web"
 TECHNIQUE = "generated edit documents (valid items + invalid item at every position) PUT to the live application; state before/after + reference edit model"
-BUDGET = {"quick": (2500, 13), "thorough": (12_000, 150)}
+BUDGET = {"quick": (2500, 12), "thorough": (12_000, 150)}
 WORKERS = {"quick": 2, "thorough": 16}
 REQUIRED = ["error_leaves_flow_unchanged", "success_equals_reference", "unknown_field_refused", "errors_after_applied_items"]
 RULE = (
@@ -274,7 +274,9 @@ async def amain(ctx):
     init = _random.Random(f"{ctx.seed}/C47/token")
     await rig.start("".join(init.choice("0123456789abcdef") for _ in range(32)))
     try:
-        for i in ctx.cases():
+        # the time budget is meant for cases: give back what importing mitmproxy / starting the server took (capped)
+        startup = min(time.monotonic() - ctx.t0, 6.0)
+        for i in ctx.cases(frac=1.0 + startup / max(ctx.seconds, 1e-9)):
             r = ctx.rng
             now = int(time.time())
             f, kind, modified = make_flow(r, i, ctx.worker)
